@@ -286,6 +286,9 @@ type zzCluster struct {
 	noForeignResolver      bool     // the foreign-resolver event is not part of the script
 	regionErrorsOnly       bool     // the script may only inject retryable region errors (no lost messages)
 	flushes                []*kvrpcpb.FlushRequest
+	refuseFlushIn          uint64 // region id whose flush batch of generation refuseFlushGen is refused (0 = none)
+	refuseFlushGen         uint64
+	flushRefused           bool
 	regions                []*metapb.Region
 	lockOutcomes           bool     // pessimistic lock outcomes are chosen by the script
 	everLocked             [][]byte // keys that ever carried a pessimistic lock of the transaction
@@ -875,6 +878,14 @@ func (c *zzClient) SendRequest(ctx context.Context, addr string, req *tikvrpc.Re
 		r := req.Flush()
 		out := &kvrpcpb.FlushResponse{}
 		cl.flushes = append(cl.flushes, r)
+		if cl.refuseFlushIn != 0 && cl.refuseFlushIn == req.Context.GetRegionId() && r.Generation == cl.refuseFlushGen {
+			// the store refuses this batch with a definite error (other batches of the flush may already be applied)
+			out.Errors = []*kvrpcpb.KeyError{{Abort: "zz: flush refused"}}
+			cl.flushRefused = true
+			rpc.answered = true
+			rpc.resp = &tikvrpc.Response{Resp: out}
+			return finish(rpc.resp, nil)
+		}
 		for _, m := range r.Mutations {
 			rpc.keys = append(rpc.keys, m.Key)
 			ks := cl.key(m.Key)
